@@ -56,11 +56,12 @@ PROPS = {
     ),
     'C16': dict(
         title='Visitors see every node exactly once, in order',
-        verus=['visit_runner'], kani=['c16_'],
+        verus=['visit_runner', 'visit_defaults'], kani=['c16_'],
         technique='Kani recording-visitor harnesses: per traversal method, callbacks checked by kind + node address + '
                   'order, symbolic presence of optional children and symbolic failing callback (children abstract); '
                   'list-shaped children bounded (len <= 2, labelled) + Verus unit visit_runner: every ExprVisitorRunner VisitProgram method, '
-                  'children abstract, unbounded, against walk(expected children)',
+                  'children abstract, unbounded, against walk(expected children); Verus unit visit_defaults: the dispatching / fixed-children DEFAULT '
+                  'methods of VisitExpr / VisitProgram (all 18 statement kinds, expression / primary / identifier / name dispatch), unbounded',
     ),
     'C17': dict(
         title='The constant folder only reports values the interpreter would compute',
@@ -71,7 +72,7 @@ PROPS = {
     ),
     'C19': dict(
         title='Lint reports are complete, ordered by line, and linting never fails',
-        verus=['linter', 'visit_runner', 'boring'], kani=['c19_'],
+        verus=['linter', 'visit_runner', 'visit_defaults', 'boring'], kani=['c19_'],
         technique=V + ' (ListBuilder build/combine/default incl. unreachable_unchecked sites, postprocess stable sort, '
                       'Linter::run, repeated-identifier rule match_or_update / visit_function_call) + Kani recording '
                       'visitors for the ExprVisitorRunner traversal the pass runs on',
